@@ -187,6 +187,15 @@ impl Ctx {
 
     /// Returns true if the failure is a listed known finding (counted, search continues).
     pub fn is_known(&self, f: &Fail) -> bool {
+        if std::env::var("PVF_COLLECT").is_ok() {
+            let mut hits = self.known_hits.lock().unwrap();
+            let e = hits.entry(f.signature.clone()).or_insert(0);
+            if *e == 0 {
+                eprintln!("COLLECT {} :: {}", f.signature, f.msg);
+            }
+            *e += 1;
+            return true;
+        }
         if self.strict {
             return false;
         }
